@@ -159,6 +159,17 @@ class Ctx:
             runner.cleanup(wd)
 
 
+def witness_cases(ctx, prop, **meta):
+    """the concrete witnesses of this property's known findings, replayed through the same oracle"""
+    from . import findings
+    out = []
+    for fid, text, cfg, cursors, w in findings.witness_inputs(prop):
+        m = {"witness": fid}
+        m.update(meta)
+        out.append(ctx.case("witness-" + fid, text, tuple(cfg) if cfg else gen.DEFAULT_CFG, cursors=cursors or [], meta=m))
+    return out
+
+
 def normalise_site(detail):
     m = re.search(r"([\w/.-]+\.rs):(\d+)", detail)
     if m:
@@ -457,6 +468,7 @@ def run_c08(ctx):
         body = "  " * rng.randrange(1, 4)
         bt.append(("procedure P;\nbegin\n" + body + "A := " + lit + call + ";\nend;\n", gen.random_cfg(rng)))
     cases += boundary_width_cases(ctx, bt, "twice-decided")
+    cases += witness_cases(ctx, "C08", wellformed=True)
     wf_cases = [c for c in cases if c.meta.get("wellformed")]
     other = [c for c in cases if not c.meta.get("wellformed")]
     ctx.run_stream(wf_cases, units=["canon", "lineend", "invariants", "recon", "eofnl", "settings"], oracle=oracle)
@@ -661,6 +673,9 @@ def run_c15(ctx):
         if rng.random() < 0.3:
             rng.shuffle(cur)
         cases.append(ctx.case(kind, text, gen.random_cfg(rng), cursors=cur))
+    cases += witness_cases(ctx, "C15")
+    big = "{" + "x" * 70000 + "\n" + "y" * 10 + "}"
+    cases.append(ctx.case("witness-F19", "a := 1; " + big + " b;", gen.DEFAULT_CFG, cursors=[8, 9, 14, 70000]))
     ctx.run_stream(cases, units=["cursor", "cursororacle", "recon"])
     ctx.hypotheses["pos_ok for cursors on blank lines in front of ignored tokens"] = "cursororacle: bounds checked on every cursor of every case"
     ctx.count("cursors_checked", sum(len(c.cursors) for c in cases))
@@ -773,6 +788,7 @@ def run_c14(ctx):
         t2 = gen.relayout(text, rng)
         if t2 is not None and rng.random() < 0.5:
             wf.append(ctx.case("relayout", t2, gen.DEFAULT_CFG))
+    wf += witness_cases(ctx, "C14")
     ctx.run_stream(wf, units=["passes", "kernel", "linescover", "parents", "eofline"])
     inv = []
     texts = [s["text"] for s in gen.seeds()]
@@ -843,6 +859,11 @@ def run_c04(ctx):
         cases.append(ctx.case("nest-while", t, (40, 1, 1, 0, 4, 2, 0), meta={"depth": depth}))
         t = "".join("  " * d + ("case %s%d of\n" % ("K" * 40, d)) + "  " * d + " 1: begin\n" for d in range(depth)) + "Z;\n" + "".join("  " * d + "end;\n" + "  " * d + "end;\n" for d in reversed(range(depth)))
         cases.append(ctx.case("nest-case", t, (30, 0, 1, 0, 2, 2, 0), meta={"depth": depth}))
+    deep = ctx.case("witness-F11", "x := " + "(" * 200000, gen.DEFAULT_CFG, meta={"depth": 200000})
+    rdeep = ctx.run_stream([deep], mode="fmt", per_case_timeout=30.0, case_limit_ms=60000)
+    r = rdeep.get(deep.id)
+    if r is not None and r.failure is not None:
+        ctx.fail("abort", deep, r.failure[0] + " " + r.failure[1], site="stack-overflow", depth=200000)
     ctx.run_stream(cases, units=["passes", "cursor"], panics_are_failures=True, per_case_timeout=1.0, case_limit_ms=15000, slow_ms=3000)
     ctx.oracle_counts["max_case_ms"] = getattr(ctx, "max_ms", 0)
     if not ctx.quick():
@@ -1066,8 +1087,12 @@ def run_c06(ctx):
         ctx.count("relayout_pairs")
         if ra.out != rb.out:
             ctx.fail("relayout_differs", rb.case, "formatting a re-layouted input gives a different result; original input: %r" % ra.case.text[:300],
-                     observed=rb.out.hex()[:2000], expected=ra.out.hex()[:2000])
+                     observed=rb.out.hex()[:2000], expected=ra.out.hex()[:2000], gap_class=meta.get("gap_class"))
 
+    from . import findings as _f
+    for fid, text, cfg, cursors, w in _f.witness_inputs("C06"):
+        if "relayout" in w:
+            pairs.append((ctx.case("witness-" + fid, text, gen.DEFAULT_CFG), ctx.case("witness-" + fid + "-relayout", w["relayout"], gen.DEFAULT_CFG), {"gap_class": "literal"}))
     run_pairs(ctx, pairs, compare)
     sample = [ctx.case("trace", t, gen.random_cfg(rng)) for t, _, _ in wellformed_texts(ctx, 20)[:: ctx.n(4, 1)]]
     ctx.run_stream(sample, units=["spacing", "fmtdata"])
@@ -1257,6 +1282,22 @@ def run_c11(ctx):
             cases.append(c)
             g.append((w, c))
         groups.append(g)
+    # the listed findings' witnesses, replayed through the same comparison
+    from . import findings as _f
+    for k in _f.load():
+        w = k.get("witness") or {}
+        if k.get("status") == "known" and "C11" in k.get("properties", [k.get("property")]) and "cfg_narrow" in w:
+            text = w.get("input")
+            if text is None and "seed" in w:
+                text = next((s["text"] for s in gen.seeds() if s["name"].startswith(w["seed"])), None)
+            if text is None:
+                continue
+            g = []
+            for cfg in (w["cfg_narrow"], w["cfg_wide"]):
+                c = ctx.case("witness-" + k["id"], text, tuple(cfg))
+                cases.append(c)
+                g.append((cfg[0], c))
+            groups.append(g)
     res = ctx.run_stream(cases, mode="fmt")
 
     def maxlen(out):
@@ -1505,6 +1546,18 @@ def run_file_layer(ctx, prop):
 
 def run_c16(ctx):
     wd, ecfg = run_file_layer(ctx, "C16")
+    # finding F8: non-canonical legacy bytes in already formatted text (Shift_JIS 87 90 = U+2252, canonically 81 E0)
+    body = "// ".encode("ascii") + bytes.fromhex("8790") + b"\nbegin\nend.\n"
+    f8 = os.path.join(wd, "f8.pas")
+    open(f8, "wb").write(body)
+    args = ["--config-file", ecfg, "-C", "encoding=shift_jis"]
+    rc_s, out_s, _ = cli.run(args, wd, stdin=body)
+    rc_f, _, _ = cli.run(args + [f8], wd)
+    after = open(f8, "rb").read()
+    if rc_s == 0 and rc_f == 0 and after != out_s:
+        c = ctx.case("witness-F8", body, gen.DEFAULT_CFG, meta={"encoding": "shift_jis"})
+        ctx.note_case(c)
+        ctx.fail("file_vs_stdout", c, "files mode left %s, stdin->stdout printed %s" % (after.hex()[:40], out_s.hex()[:40]), noncanonical=True)
     rng = ctx.rng
     # path forms: file, directory, glob, --files-from: every form formats the same set of files identically
     d = os.path.join(wd, "forms")
